@@ -1694,6 +1694,7 @@ def inline_helpers(P: Program, f: Func, depth: int = 2) -> Func:
         from .erase import erase
         f0 = f
         f = _walrus(f)                               # `if not (x := E):` is `x = E; if not x:`
+        f = _dict_splat(f)                           # `x = {**d, 'k': v}` is `x = d.copy(); x['k'] = v`
         f = _inline_new_properties(P, f)             # `c.ram` (a new read-only property) is `c.assignment.ram`
         v = _inline_helpers(P, f, depth)
         if v is not f:
@@ -2594,6 +2595,45 @@ def _walrus(f: Func) -> Func:
                 i += 1
     if not changed:
         return f
+    ast.fix_missing_locations(node)
+    for n in ast.walk(node):
+        for ch in ast.iter_child_nodes(n):
+            ch._parent = n  # type: ignore[attr-defined]
+    node._parent = getattr(f.node, "_parent", None)  # type: ignore[attr-defined]
+    return Func(f.mod, f.qual, node, f.cls)
+
+
+def _dict_splat(f: Func) -> Func:
+    """`x = {**d, 'k1': v1, ..}` (one leading unpacked mapping named by a plain name or attribute path, then constant keys; no vi reads x) is
+    `x = d.copy(); x['k1'] = v1; ..` — the copy-then-store idiom the rules about configuration dicts are stated on."""
+    def _is(n):
+        return isinstance(n, ast.Assign) and len(n.targets) == 1 and isinstance(n.targets[0], ast.Name) and isinstance(n.value, ast.Dict) \
+            and len(n.value.keys) >= 2 and n.value.keys[0] is None and isinstance(n.value.values[0], (ast.Name, ast.Attribute)) \
+            and all(isinstance(k, ast.Constant) for k in n.value.keys[1:]) \
+            and not any(isinstance(x, ast.Name) and x.id == n.targets[0].id for v in n.value.values for x in ast.walk(v)) \
+            and not any(isinstance(x, (ast.NamedExpr, ast.Yield, ast.YieldFrom, ast.Await)) for x in ast.walk(n.value))
+    if not any(_is(n) for n in own_nodes(f.node)):
+        return f
+    node = norm.clone(f.node)
+    for owner in list(ast.walk(node)):
+        for _fld, blk in _block_lists(owner):
+            i = 0
+            while i < len(blk):
+                st = blk[i]
+                if _is(st):
+                    x = st.targets[0].id
+                    new = [ast.Assign(targets=[ast.Name(id=x, ctx=ast.Store())],
+                                      value=ast.Call(func=ast.Attribute(value=st.value.values[0], attr="copy", ctx=ast.Load()), args=[], keywords=[]))]
+                    for k, v in zip(st.value.keys[1:], st.value.values[1:]):
+                        new.append(ast.Assign(targets=[ast.Subscript(value=ast.Name(id=x, ctx=ast.Load()), slice=k, ctx=ast.Store())], value=v))
+                    for z in new:
+                        for y in ast.walk(z):
+                            if not hasattr(y, "lineno"):
+                                ast.copy_location(y, st)
+                    blk[i:i + 1] = new
+                    i += len(new)
+                    continue
+                i += 1
     ast.fix_missing_locations(node)
     for n in ast.walk(node):
         for ch in ast.iter_child_nodes(n):
